@@ -37,6 +37,14 @@ contract(G + 'TileGrid.tile_bbox', props=['C03', 'C01', 'C02', 'C04'],
              'abs(result[1] - tb_y0(self, tile_coord[1], tile_coord[2])) <= 2e-12',
              'abs(result[3] - tb_y1(self, tile_coord[1], tile_coord[2])) <= 2e-12',
          ],
+         # limit=True (KML, tile services): the same rectangle cut to the grid extent - never larger than the tile, never outside the grid
+         variants=[{},
+                   dict(requires=['grid_wf(self)', 'level_ok(self, tile_coord[2])', 'limit == True'], must_fail=None,
+                        ensures=['abs(result[0] - max(tb_x0(self, tile_coord[0], tile_coord[2]), self.bbox[0])) <= 1e-12',
+                                 'abs(result[2] - min(tb_x1(self, tile_coord[0], tile_coord[2]), self.bbox[2])) <= 2e-12',
+                                 'abs(result[1] - max(tb_y0(self, tile_coord[1], tile_coord[2]), self.bbox[1])) <= 2e-12',
+                                 'abs(result[3] - min(tb_y1(self, tile_coord[1], tile_coord[2]), self.bbox[3])) <= 2e-12',
+                                 'result[0] >= self.bbox[0] and result[1] >= self.bbox[1] and result[2] <= self.bbox[2] and result[3] <= self.bbox[3]'])],
          must_fail='result[0] == self.bbox[0]')
 
 contract(G + 'TileGrid.tile', props=['C03'],
